@@ -139,6 +139,21 @@ def handle_workflow_action(
             reason = get_input(stdscr, "Cancellation reason: ")
             if reason:
                 data_fetcher.store.cancel(wf_id, canceled_by="monitor", reason=reason)
+                # The flag alone stops tasks from executing but cancels no stage and
+                # finishes nothing: with only StartStage / SkipStage messages left the
+                # workflow stayed RUNNING for ever. Hand the request to the engine, as
+                # Orchestrator.cancel() does, when the monitor was given the queue.
+                if data_fetcher.queue is not None:
+                    from stabilize.queue.messages import CancelWorkflow
+
+                    data_fetcher.queue.push(
+                        CancelWorkflow(
+                            execution_type=data_fetcher.store.retrieve(wf_id).type.value,
+                            execution_id=wf_id,
+                            user="monitor",
+                            reason=reason,
+                        )
+                    )
                 show_message(stdscr, f"Canceled workflow {wf_id}")
             else:
                 show_message(stdscr, "Cancellation aborted")
